@@ -235,8 +235,96 @@ def run(tier, argv):
             if bad:
                 chk.violation(kk, "; ".join(bad[:3]), {"N": n, "pipeline": pipe, "obs": obs, "history": [str(h) for h in hist]})
         chk.sample({"N": n, "pipeline": pipe, "behaviour": [h["move"] for h in [dict(x) for x in chosen[0][1]]], "Zhat": list(chosen[0][3])})
+    record_rejuvenation_smc(chk, tier)
     chk.cov["rule"] = ("SMC.tla: every behaviour (all particle draws, ancestor vectors / offset intervals, accept patterns) of hand-composed pipelines "
                        "init/extend (default and custom proposal) / resample (both methods) / rejuvenate(mh) for N in {2,3}; TLC proves E[Zhat] = "
                        "evidence exactly after every move (registers + POSTCONDITION); a seeded sample of behaviours per pipeline is replayed on "
-                       "the real smc module with scripted randomness, weights / choices / log_marginal_likelihood compared after every move")
+                       "the real smc module with scripted randomness, weights / choices / log_marginal_likelihood compared after every move; "
+                       "direction B: seeded runs of the real rejuvenation_smc (jit, N in {2,3,4,6}, T in {2,3}, with and without mh rejuvenation) recorded "
+                       "per step and validated by TLC (SMCTrace.tla infers pre-rejuvenation latents and ancestors; ESS trigger, weights, estimate)")
     return chk.finish()
+
+
+# ======================================================================================================================
+# direction (B): the real rejuvenation_smc with REAL randomness, recorded step by step and validated by TLC (SMCTrace.tla)
+from genjax import categorical  # noqa: E402
+
+
+@gen
+def hmm_real(prev):
+    z = categorical(TRANS[prev]) @ "z"
+    categorical(EMIT[z]) @ "x"
+    return z
+
+
+def record_rejuvenation_smc(chk, tier):
+    import json as _json
+    from ..tlaval import printed_values as _pv
+    rng = random.Random(chk.seed + 4)
+    events = []
+    n_runs = 24 if tier == "quick" else 300
+    kernel = const(lambda t: mcmc.mh(t, sel("z")))
+    cache = {}
+    for r in range(n_runs):
+        N = rng.choice([2, 3, 4, 6])
+        T = rng.choice([2, 3])
+        obs = [rng.randrange(3) for _ in range(T)]
+        rejuv = bool(r % 2)
+        ck = (N, T, rejuv)
+        if ck not in cache:
+            cache[ck] = jax.jit(seed(lambda o: smc.rejuvenation_smc(hmm_real, None, kernel if rejuv else None, {"x": o}, (jnp.asarray(0),),
+                                                                     const(N), const(True), const(2 if rejuv else 1))))
+        out = cache[ck](jax.random.key(chk.seed * 1009 + r), jnp.asarray(obs, dtype=jnp.int32))
+        zs = np.asarray(out.traces.get_choices()["z"])
+        lws = np.asarray(out.log_weights)
+        lme = np.asarray(out.log_marginal_estimate)
+        steps = []
+        ok = True
+        for t in range(T):
+            scale = (4.0 * N) ** (t + 1)
+            v = math.exp(float(lme[t])) * scale
+            if abs(v - round(v)) > 1e-3 * max(1.0, v):
+                ok = False
+            steps.append({"z": [int(a) for a in zs[t]], "lw": [quantise(a) for a in lws[t]], "zs": int(round(v))})
+        if not ok:
+            chk.violation(f"smc-trace|run={r}|estimate-not-on-grid", "exp(log_marginal_estimate) * (4N)^t is not an integer", {"N": N, "obs": obs})
+            continue
+        events.append({"N": N, "obs": obs, "steps": steps, "rejuv": rejuv, "prev0": 0})
+    rej = _validate_smc(chk, events, "real")
+    chk.validated(len(events) - len(rej))
+    for i, f in rej.items():
+        e = events[i - 1]
+        chk.violation(f"smc-trace|N={e['N']}|obs={e['obs']}|rejuv={e['rejuv']}|steps={f}|z={[s['z'] for s in e['steps']]}",
+                      f"recorded rejuvenation_smc run rejected by SMCTrace at step(s) {f}", e)
+    # binding demo: corrupt one weight and one estimate
+    demo = [_json.loads(_json.dumps(e)) for e in events[:6]]
+    demo[0]["steps"][0]["lw"][0] -= 3          # (event 1 has no rejuvenation: its latents pin the weights)
+    demo[3]["steps"][-1]["zs"] += 1
+    r2 = _validate_smc(None, demo, "demo")
+    if 1 not in r2 or 4 not in r2:
+        raise MachineryError(f"binding demo failed for SMCTrace: {r2}")
+    chk.cov["binding_demo"].append(f"a recorded weight lowered by one and an estimate raised by one make SMCTrace reject events {sorted(r2)}")
+    chk.sample({"kind": "recorded rejuvenation_smc run", **events[0]})
+    chk.cov["recorded_smc_runs"] = len(events)
+
+
+def _validate_smc(chk, events, tag):
+    import json as _json
+    from ..tlaval import printed_values as _pv
+    d = os.path.join(tlc.OUT, f"smctrace_{tag}_{os.getpid()}")
+    os.makedirs(d, exist_ok=True)
+    f = os.path.join(d, "events.json")
+    with open(f, "w") as fh:
+        _json.dump(events, fh)
+    res = tlc.run("SMCTrace", "SMCTrace.cfg", workers=1, env={"TRACE_FILE": f}, allow_violation=True, timeout=2400,
+                  tag=f"smctrace_run_{tag}_{os.getpid()}")
+    if "ALLCHECKED" not in res.stdout:
+        raise MachineryError("SMCTrace did not complete:\n" + "\n".join(res.stdout.splitlines()[-25:]))
+    rej = {}
+    for v in _pv(res.stdout, '<<"REJECT"') + _pv(res.stdout, '<< "REJECT"'):
+        rej[v[1]] = sorted(v[2])
+    if chk is not None:
+        chk.add_tlc(res, "SMCTrace/" + tag)
+    tlc.cleanup(res)
+    __import__("shutil").rmtree(d, ignore_errors=True)
+    return rej
